@@ -1,10 +1,12 @@
 from ..framework import Spec
 from ..ties_cond import resolve_tie, file_tie
-from ..ties_sys import scenario_tie
+from ..ties_sys import scenario_tie, fault_sweep_tie
 from ..scenarios import gen_cond_scenario
 
 # definition order (a line is substituted against exactly the symbols defined before it) is observed at file level
 SPEC = Spec(pid='C09', coq_needs=['Base', 'Subst', 'SubstProofs', 'Cond', 'CondEval', 'Program', 'Properties/C09'],
             ties=[resolve_tie(), file_tie(),
                   # symbols from all three sources (ISA file incl. null values, command line, #define) used by whole programs
-                  scenario_tie('cond_programs', gen_cond_scenario, 150, 3000)])
+                  scenario_tie('cond_programs', gen_cond_scenario, 150, 3000),
+                  # the same symbol defined twice: by two #define lines, or listed twice in the instruction set file
+                  fault_sweep_tie(['dup_define', 'dup_isa_symbol'], per_kind_quick=6, per_kind_thorough=40, name='dup_symbols')])
